@@ -22,7 +22,13 @@ def claimed():
 
 
 def main():
-    args = [a for a in sys.argv[1:] if not a.startswith("--")]
+    only = None
+    argv = list(sys.argv[1:])
+    if "--props" in argv:
+        i = argv.index("--props")
+        only = argv[i + 1].split(",")
+        del argv[i:i + 2]
+    args = [a for a in argv if not a.startswith("--")]
     all_props = "--all-props" in sys.argv
     sd = os.path.join(HERE, "benign" if "--benign" in sys.argv else "seeded")
     seeds = args or sorted(d for d in os.listdir(sd) if os.path.isfile(os.path.join(sd, d, "patch.diff")))
@@ -41,7 +47,7 @@ def main():
             continue
         try:
             benign = bool(meta.get("benign")) or "--benign" in sys.argv
-            props = claimed() if (all_props or benign) else [target]
+            props = only or (claimed() if (all_props or benign) else [target])
             fired = {}
             for p in props:
                 if p not in claimed():
